@@ -4,7 +4,8 @@
 2. code -> spec: for each generated real file (VBS, blocked VBS) EVERY offset 0..len(file) is cut and read with the
    real VbsReader; the trace (cut k, next...) is validated by Trace_Vbs with strict = FALSE: records must be exactly the
    complete ones, the terminal outcome stop or the library error, nothing else.
-   IPM files (IpmReader over every cut) are validated by the C09 part of harness/ipmc.py when the ISO8583 spec is loaded.
+   IPM files: every cut of real IpmWriter files is read with the real IpmReader and judged by Trace_Ipm (records before
+   the cut decode to exactly their dictionaries; then stop or the library error).
 """
 from . import core, drv, vbsc
 from .drv import P
@@ -27,7 +28,11 @@ def gen_file(r, blocked, nrecs, cap):
 def _drive(args):
     seed, tid, blocked, nrecs, cap, lo, hi = args
     r = drv.rng(seed, 'c09', tid)
-    recs = gen_file(r, blocked, nrecs, cap)
+    if nrecs < 0:
+        # single record whose end falls at payload offsets 1009..1016 of the first block (length -nrecs)
+        recs = [vbsc.rec_content(r, -nrecs, 'code', 0)]
+    else:
+        recs = gen_file(r, blocked, nrecs, cap)
     _, data = drv.vbs_write_events(recs, blocked)
     hi = min(hi, len(data))
     events = [drv.ev('given', 0, '', data)]
@@ -37,6 +42,52 @@ def _drive(args):
     return {'tid': tid * 1000 + lo // 700, 'blk': blocked, 'strict': False, 'loc': False, 'events': events,
             '_desc': '%s file of %d bytes, records %s, every cut %d..%d' % ('blocked' if blocked else 'unblocked', len(data),
                                                                         [len(x) for x in recs], lo, hi)}
+
+
+def _drive_ipm(args):
+    """every cut of a real IPM file read with the real IpmReader (Trace_Ipm, strict = FALSE)"""
+    from . import ipmc, isoc
+    from .isoc import PKG
+    seed, tid, blocked, enc, lo, hi = args
+    bc = PKG['bit_config']
+    r = drv.rng(seed, 'c09ipm', tid)
+    msgs = []
+    for i in range(r.choice((1, 2, 3))):
+        m = isoc.gen_message(r, bc, isoc.SAFE, maxbits=3)
+        if i == 1:
+            m['DE72'] = 'R' * (960 + tid % 50)        # a record that crosses the first block boundary
+        msgs.append(m)
+    data = ipmc.write_file(msgs, enc, bc, blocked)
+    hi = min(hi, len(data))
+    events = [ipmc.iev(1, 'given', b=data)]
+    for k in range(lo, hi + 1):
+        events.append(ipmc.iev(1, 'cut', n=k))
+        for e in ipmc.read_all_events(1, data[:k], enc, bc, blocked):
+            e.pop('_exc', None)
+            events.append(e)
+    return {'tid': tid * 100 + lo // 400, 'loc': False, 'strict': False, 'insts': [{'blk': blocked}], 'events': events,
+            '_enc': enc, '_desc': '%s IPM file (%s) of %d bytes, %d messages, every cut %d..%d' % (
+                'blocked' if blocked else 'unblocked', enc, len(data), len(msgs), lo, hi)}
+
+
+def ipm_cuts(rep, wd, tier, seed):
+    from . import ipmc
+    jobs = []
+    for i in range(8 if tier == 'thorough' else 2):
+        for lo in range(0, 3 * (P + 2), 400):
+            jobs.append((seed, i, bool(i & 1), ('latin_1', 'cp500')[(i // 2) % 2], lo, lo + 399))
+    traces = [t for t in vbsc.parallel(_drive_ipm, jobs) if len(t['events']) > 1]
+    cuts = sum(1 for t in traces for e in t['events'] if e['op'] == 'cut')
+    rep.extra['ipm_cuts_read_with_real_reader'] = cuts
+    groups = {}
+    for t in traces:
+        g = groups.setdefault(t['_enc'], [])
+        t['tid'] = len(g)
+        g.append(t)
+    rep.sample({'trace': traces[0]['_desc']})
+    before = rep.traces
+    ipmc.validate(rep, wd, [(('pkg',), enc, ts) for enc, ts in groups.items()], lambda c: True, 'truncated-ipm', maxbatch=2)
+    rep.traces = before + cuts
 
 
 def run(rep, wd, tier, seed):
@@ -51,6 +102,12 @@ def run(rep, wd, tier, seed):
         # split each file's cuts into slices of 700 offsets so that batches stay small
         for lo in range(0, 7 * (P + 2), 700):
             jobs.append((seed, i, blocked, nrecs, cap, lo, lo + 699))
+    # deterministic part: one record of every length 1005..1012 (the record ends on / next to the block boundary),
+    # blocked (quick) and unblocked (thorough): every cut, in particular the cuts between the two pad bytes
+    for n in range(1005, 1013):
+        for blocked in ((True, False) if tier == 'thorough' else (True,)):
+            for lo in range(0, 2 * (P + 2), 700):
+                jobs.append((seed, 1000 + n * 2 + int(blocked), blocked, -n, 0, lo, lo + 699))
     traces = [t for t in vbsc.parallel(_drive, jobs) if len(t['events']) > 1]
     cuts = sum(1 for t in traces for e in t['events'] if e['op'] == 'cut')
     rep.extra['cuts_read_with_real_reader'] = cuts
@@ -62,6 +119,7 @@ def run(rep, wd, tier, seed):
     batches = core.split(traces, core.NCPU)
     vbsc.validate(rep, wd, batches, 'truncated')
     rep.traces = cuts   # every cut is one recorded execution of the real reader
+    ipm_cuts(rep, wd, tier, seed)
     rep.exhaustive = True
     rep.notes.append('exhaustive over cut offsets per generated file; files are seeded samples')
 
